@@ -8,6 +8,7 @@ pub mod c01;
 pub mod c02;
 pub mod c03;
 pub mod c04;
+pub mod c05;
 pub mod c09;
 pub mod c18;
 
@@ -17,6 +18,7 @@ pub fn run(prop: &str, ctx: &mut Ctx) -> bool {
         "C02" => c02::run(ctx),
         "C03" => c03::run(ctx),
         "C04" => c04::run(ctx),
+        "C05" => c05::run(ctx),
         "C09" => c09::run(ctx),
         "C18" => c18::run(ctx),
         _ => return false,
@@ -30,6 +32,7 @@ pub fn replay(prop: &str, case: &Value) -> Option<Vec<Failure>> {
         "C02" => c02::replay(case),
         "C03" => c03::replay(case),
         "C04" => c04::replay(case),
+        "C05" => c05::replay(case),
         "C09" => c09::replay(case),
         "C18" => c18::replay(case),
         _ => return None,
